@@ -728,6 +728,10 @@ def iterate(ex, v, live=False):
         return v.items()
     if isinstance(v, SymRange):
         raise OutOfSubset('range() over a symbolic bound')
+    if isinstance(v, SIter):
+        rest = v.items[v.pos:]
+        v.pos = len(v.items)
+        return rest
     if v is None:
         raise PyRaise('TypeError', "'NoneType' object is not iterable")
     if isinstance(v, (int, float, SymScalar)) or is_sym(v):
@@ -735,6 +739,12 @@ def iterate(ex, v, live=False):
     if isinstance(v, I.SObj):
         raise PyRaise('TypeError', "'%s' object is not iterable" % v.cls.name)
     raise OutOfSubset('iteration over %s' % type(v).__name__)
+
+
+class SIter(object):
+    """iter(sequence)"""
+    def __init__(self, items):
+        self.items, self.pos = items, 0
 
 
 class SymRange(object):
@@ -1065,6 +1075,18 @@ def call_builtin(ex, f, args, kwargs):
                 if not isinstance(v, int):
                     raise PyRaise('TypeError', "'%s' object cannot be interpreted as an integer" % type(v).__name__)
             return range(*vals)
+        if n == 'iter':
+            return SIter(list(iterate(ex, args[0])))
+        if n == 'next':
+            it = args[0]
+            if not isinstance(it, SIter):
+                raise PyRaise('TypeError', "'%s' object is not an iterator" % type(it).__name__)
+            if it.pos >= len(it.items):
+                if len(args) > 1:
+                    return args[1]
+                raise PyRaise('StopIteration', '')
+            it.pos += 1
+            return it.items[it.pos - 1]
         if n == 'zip':
             its = [iterate(ex, a) for a in args]
             return list(zip(*its))
@@ -1493,6 +1515,21 @@ def _tensor(ex, a, k):
     if is_sym(data):
         data = SymScalar(data, 'int' if data.is_int() else 'float')
     return T.from_data(data, dtype)
+
+
+@ext('torch.as_tensor')
+def _as_tensor(ex, a, k):
+    """torch.as_tensor(data, dtype=None, device=None): a tensor is returned as it is (converted when a dtype is given); python data
+    is converted like torch.tensor (python floats become the DEFAULT dtype float32 -- a double is rounded)"""
+    k = dict(k)
+    k.pop('device', None)
+    dtype = _dtype_kw(k)
+    data = a[0]
+    if len(a) > 1 and isinstance(a[1], I.DType):
+        dtype = str(a[1])
+    if isinstance(data, STensor):
+        return T.to_dtype(data, dtype) if data.lib != 'numpy' else _tensor(ex, [data], {'dtype': I.DType(dtype)} if dtype else {})
+    return _tensor(ex, [data], {'dtype': I.DType(dtype)} if dtype else {})
 
 
 @ext('torch.arange')
